@@ -411,6 +411,18 @@ def rule_pair_sync_flag(ctx):
         fns = sorted({(ctx.prog.bodies[c_].root or c_) for w_ in wrappers for c_ in cl.get(w_, ()) if (ctx.prog.bodies[c_].root or c_) not in wrappers})
     if not fns:
         raise CheckFailure('PAIR-sync-flag: no writer of %s.%s found' % (ADT, FIELD))
+    # the set and the reset packaged as small private helpers (`try_acquire()` / `release()`): the pairing is judged in the functions that call
+    # them, with the helpers stepped into (a helper is a flag writer that does not itself run the maintenance)
+    from .roles import get_roles as _gr_
+    _maint = _gr_(ctx).maintenance
+    _cl = ctx.prog.callers()
+    _helpers = {f for f in fns if ctx.prog.bodies[f].kind != 'closure' and not ctx.prog.bodies[f].loops() and len(ctx.prog.bodies[f].blocks) <= 14 and
+                _cl.get(f) and not (ctx.prog.reachable_from([f]) & _maint)}
+    if _helpers and len(_helpers) < len(fns) + 2:
+        _callers = {(ctx.prog.bodies[c_].root or c_) if ctx.prog.bodies[c_].kind == 'closure' else c_ for h_ in _helpers for c_ in _cl.get(h_, ())} - _helpers
+        if _callers:
+            wrappers |= _helpers
+            fns = sorted((set(fns) - _helpers) | _callers)
 
     def is_flag(term):
         return any(x[0] == 'fld' and x[2] == FIELD for x in subterms(term) if isinstance(x, tuple) and x)
@@ -813,6 +825,8 @@ def rule_loops(ctx):
             elif role == 'advance':
                 # the cursor is advanced by a direct call of the node's successor accessor, or by next() of an
                 # iter::successors(..) whose successor closure is that accessor
+                from .roles import get_roles as _gr
+                _succ_role = _gr(ctx).succ      # the successor accessor by role: also a thin wrapper around an accessor trait of the node pointer
                 adv_clo = {c for c in prog.closures_of.get(nid, []) if ('read', 'common::deque::DeqNode', 'next') in eff.transitive(c)}
                 succ_iter = any(ext_ == 'std::iter::successors' and set(ps_) & adv_clo for _bi, t_ in b.calls() for _tg, ext_, ps_ in [prog.call_targets(b, t_)])
                 # ... or such an iterator is built by a helper of the list module (a lazy node iterator)
@@ -824,7 +838,7 @@ def rule_loops(ctx):
                             succ_iter = True
                 # (the accessor may be wrapped: an in-crate iterator's next() that calls it counts through its own small body)
                 S = _blocks_calling(ctx, b, body, lambda tg, ext, ps, t: any(
-                    ('read', 'common::deque::DeqNode', 'next') in eff.direct.get(x, ()) or
+                    ('read', 'common::deque::DeqNode', 'next') in eff.direct.get(x, ()) or x in _succ_role or
                     (prog.bodies[x].name == 'next' and not prog.bodies[x].loops() and len(prog.bodies[x].blocks) <= 25 and ('read', 'common::deque::DeqNode', 'next') in eff.transitive(x))
                     for x in tg) or
                     (succ_iter and ext == '<std::iter::Successors as std::iter::Iterator>::next'))
